@@ -5,7 +5,7 @@
    inserted template natively instantiates the template, element by element, exactly as the unrolled rows do. *)
 From Coq Require Import List NArith ZArith Bool Lia PeanoNat Arith.
 From RPFT Require Import Base.Sexp Base.PyStr Base.ODict Base.Result Gen.Tables Cell.Cell Index.Args Index.ArgsFacts
-  Tmpl.MiniJinja Tmpl.RowLoop Tmpl.TmplFacts Comp.InsertArgs.
+  Tmpl.MiniJinja Tmpl.RowLoop Tmpl.TmplFacts Tmpl.Insert Comp.InsertArgs.
 Import ListNotations.
 
 (* ---- association lists over objects: a new key is appended ---- *)
@@ -534,3 +534,22 @@ Definition insert_witness : Prop :=
 
 Lemma insert_witness_holds : insert_witness.
 Proof. unfold insert_witness. repeat split; vm_compute; reflexivity. Qed.
+
+(* ---- the link with the insert model of C16 (Tmpl/Insert.v: at most one declared argument, no default, a string):
+   its [block_context] is this binding ---- *)
+Lemma plain_type_is_not_sheet : str_eqb [] sheet_type_kw = false.
+Proof. vm_compute. reflexivity. Qed.
+
+Definition defs_of_template (t : template) : list argdef :=
+  match t_arg t with None => [] | Some x => [mk_argdef x [] []] end.
+
+Theorem block_context_is_typed_binding : forall (t : template) (a : str) c,
+  block_context t a = Ok c -> bind_args [] (defs_of_template t) [VStr a] [] = Ok c.
+Proof.
+  intros t a c. unfold block_context, defs_of_template. destruct (t_arg t) as [x|].
+  - destruct a as [|ch r]; [discriminate|]. intros H. inversion H; subst.
+    unfold bind_args. cbn [length fit firstn app repeat Nat.sub combine bind_all].
+    unfold bind_one. cbn [ocontains oget ad_name ad_type ad_default arg_value is_blank].
+    rewrite plain_type_is_not_sheet. reflexivity.
+  - intros H. inversion H; subst. reflexivity.
+Qed.
